@@ -108,6 +108,7 @@ def run_prop(prop, tier):
                     chk.disagree('histories:records', case, str(got)[:3000], str(want)[:3000])
         if prop == 'C20':
             run_c20_oracle(chk, hists, tmp, model, bres)
+            c20_data_stream(chk, tier, tmp)
         if chk.disagreements and not chk.failures and bres.ok:
             # failing-input search: the correspondence is broken; look for a concrete history on which the
             # property itself fails, over a much larger set of histories (oracles only)
@@ -140,6 +141,17 @@ def run_prop(prop, tier):
                     oracle_references(chk, r)
                 else:
                     oracle_order_whole(chk, r)
+    if prop in ('C07', 'C09'):
+        # objects renamed / moved to another origin after a first write, then the same DLISFile written again
+        for r in wf.rewrite_runs(prop, tier, model, bres, chk, 60, 500):
+            if bres.ok and wf.oracle_readable(r, chk, prop.lower() + '-rewrite'):
+                before = len(chk.failures)
+                if prop == 'C07':
+                    oracle_references(chk, r)
+                else:
+                    oracle_order_whole(chk, r)
+                for f in chk.failures[before:]:
+                    f['key'] = 'rewrite:' + f['key']
     if prop == 'C07' and bres.ok:
         cross_reference_stream(chk, model, tier)
     return finish(chk, bres, cfg['theorems'],
@@ -261,10 +273,38 @@ def oracle_order_whole(chk, r):
                         defined.add((x['set_type'], o['origin'], o['copy'], o['name']))
             else:
                 seen_iflr = True
+                # the object an indirectly formatted record belongs to is defined earlier in the same logical file
+                ref = decode_obname(x['body'])
+                want_type = {0: 'FRAME', 1: 'NO-FORMAT'}.get(x['type'])
+                if ref is None or want_type is None:
+                    problems.append(f'indirectly formatted record of type {x["type"]} without a readable object name')
+                elif (want_type,) + ref not in defined:
+                    problems.append(f'indirectly formatted record refers to {want_type} {ref}, which does not precede it '
+                                    f'(defined so far: {sorted(d for d in defined if d[0] == want_type)[:4]})')
         if len(set(keys)) != len(keys):
             problems.append('a (type, name) occurs twice')
         if problems:
             chk.fail('order:whole-file', r.case, f'logical file {li}: ' + '; '.join(problems[:5]))
+
+
+def decode_obname(body):
+    """OBNAME at the head of an IFLR body: origin (UVARI), copy (USHORT), name (IDENT) -> (origin, copy, name)"""
+    try:
+        b0 = body[0]
+        if b0 < 0x80:
+            origin, k = b0, 1
+        elif b0 < 0xC0:
+            origin, k = ((b0 & 0x3F) << 8) | body[1], 2
+        else:
+            origin, k = ((b0 & 0x3F) << 24) | (body[1] << 16) | (body[2] << 8) | body[3], 4
+        copy = body[k]
+        n = body[k + 1]
+        name = body[k + 2:k + 2 + n]
+        if len(name) != n:
+            return None
+        return origin, copy, name.decode('ascii')
+    except (IndexError, UnicodeDecodeError):
+        return None
 
 
 def oracle_references(chk, r):
@@ -431,6 +471,83 @@ def run_c20_oracle(chk, hists, tmp, model, bres):
             except Exception:
                 pass
             chk.fail(key, case, f'content differs from the history without the rejected calls: {str(diff)[:800]}')
+
+
+def c20_data_stream(chk, tier, tmp):
+    """rejected add_channel calls that carried data (and rejected calls of other kinds) followed by accepted ones
+    that rely on the data registry being as if the rejected call had never been made: the write outcome and the
+    bytes must equal those of the same calls without the rejected ones"""
+    import numpy as np
+    from dliswriter import DLISFile
+    R = rng('C20', 'data')
+    n = 150 if tier == 'quick' else 1500
+    BAD = H.LATE_REJECT['channel'] + [{'origin_reference': 'x'}, {'properties': ['NOT-A-PROPERTY']}, {'units': 5}]
+    for i in range(n):
+        nrows = R.choice([3, 5])
+        names = ['DEPTH', 'RPM', 'GR']
+        ops = []
+        for nm in names:
+            if R.random() < 0.6:
+                # a rejected call first, carrying data (or not), under the same or another dataset name
+                ops.append({'name': nm if R.random() < 0.8 else 12345, 'data': R.random() < 0.8, 'fill': 4242.0 + len(ops),
+                            'bad': R.choice(BAD) if R.random() < 0.85 else {}, 'dsn': R.choice([None, None, 'ds_' + nm]),
+                            'rejected': True})
+                if ops[-1]['name'] != 12345 and not ops[-1]['bad']:
+                    ops[-1]['bad'] = R.choice(BAD)
+            ops.append({'name': nm, 'data': R.random() < 0.5, 'fill': float(len(ops)), 'bad': {}, 'dsn': None, 'rejected': False})
+        source = R.choice(['none', 'dict-missing', 'dict-all', 'struct'])
+        results = []
+        for drop in (False, True):
+            def go():
+                df = DLISFile(set_identifier='C20D', max_record_length=8192)
+                lf = df.add_logical_file(fh_id='H')
+                lf.add_origin('O', file_set_number=1, creation_time='2020/01/01 00:00:00')
+                chans, outcomes = [], []
+                for op in ops:
+                    if drop and op['rejected']:
+                        continue
+                    kw = dict(op['bad'])
+                    if op['data']:
+                        kw['data'] = np.full(nrows, op['fill'], dtype=np.float64)
+                    if op['dsn']:
+                        kw['dataset_name'] = op['dsn']
+                    st, res = call(lf.add_channel, op['name'], **kw)
+                    outcomes.append(st)
+                    if st == 'ok':
+                        chans.append(res)
+                lf.add_frame('FR', channels=chans)
+                accepted = [op for op in ops if not op['rejected']]
+                kwargs = {}
+                if source == 'dict-all':
+                    kwargs['data'] = {op['name']: np.full(nrows, 100.0 + k) for k, op in enumerate(accepted)}
+                elif source == 'dict-missing':
+                    kwargs['data'] = {op['name']: np.full(nrows, 100.0 + k) for k, op in enumerate(accepted) if op['data']}
+                elif source == 'struct':
+                    arr = np.zeros(nrows, dtype=[(op['name'], np.float64) for op in accepted])
+                    for k, op in enumerate(accepted):
+                        arr[op['name']] = 200.0 + k
+                    kwargs['data'] = arr
+                path = f'{tmp}/c20d_{int(drop)}.dlis'
+                df.write(path, output_chunk_size=2**20, **kwargs)
+                return outcomes, open(path, 'rb').read()
+            results.append(call(go))
+        case = {'index': i, 'calls': [{k: (v if k != 'bad' else repr(v)) for k, v in op.items()} for op in ops],
+                'rows': nrows, 'write_data': source}
+        chk.case('rejected-calls-with-data', nontrivial_key=('c20d', i), sample={'index': i, 'source': source,
+                                                                              'with': results[0][0], 'without': results[1][0]})
+        (s0, r0), (s1, r1) = results
+        chk.count(f'c20-data:{source}:{s0}/{s1}')
+        if s0 == 'ok':
+            exp_out = ['err' if op['rejected'] else 'ok' for op in ops]
+            if r0[0] != exp_out:
+                chk.count('c20-data:call-outcomes-unexpected')
+                continue       # a call meant to be rejected was accepted (or vice versa): not a comparable pair
+        if s0 != s1:
+            chk.fail('rejected:data-registry:writability', case, f'with the rejected calls the write is {s0} '
+                     f'({r0 if s0 != "ok" else ""}), without them {s1} ({r1 if s1 != "ok" else ""})')
+        elif s0 == 'ok' and r0[1] != r1[1]:
+            chk.fail('rejected:data-registry:bytes', case, 'the file differs from the one written by the same calls without '
+                                                           'the rejected ones')
 
 
 def decoded_inventory_full(recs):
